@@ -83,6 +83,10 @@ pub fn cli_crypt(ctx: &mut Ctx) {
             let name = format!("t/second-name-{tag}.bin");
             if std::fs::hard_link(sbx.path(&files[0].0), sbx.path(&name)).is_ok() { let c = files[0].1.clone(); files.push((name, c)); ctx.count("tree:hard-linked-file"); }
         }
+        // a symbolic link whose target is as recognisable as a file's content (before fix: commits in /repo link entries
+        // were always written stored and unencrypted, also by --unsolid of an encrypted block)
+        let link_target = format!("private/SECRET-TARGET-{tag}/payroll-2024.xlsx");
+        let has_link = std::os::unix::fs::symlink(&link_target, sbx.path(&format!("t/link-{tag}"))).is_ok();
         let base = ["correct horse", "Pässwörd-7", "p4ss w0rd!", "secret\tTab", "x-y-z-1-2-3"][rng.gen_range(0..5)].to_string();
         let pw_w: String = match case % 6 { 0 => format!("{base}\n"), 1 => format!("{base} "), 2 => format!("{base}\r\n"), _ => base.clone() };
         let chan_w = if case % 2 == 0 { "file" } else { "arg" };
@@ -121,6 +125,9 @@ pub fn cli_crypt(ctx: &mut Ctx) {
                     ctx.violation("C08", "a solid encrypted archive exposes an entry name", json!({"case":attrs,"stage":stage,"file":name}));
                     break;
                 }
+            }
+            if has_link && contains(&all, link_target.as_bytes()) {
+                ctx.violation("C08", "an encrypted archive contains a symbolic link's target in clear", json!({"case":attrs,"stage":stage,"solid":solid_names_hidden,"link_target":link_target}));
             }
             if contains(&all, pw_w.trim_end().as_bytes()) { ctx.violation("C08", "the archive contains the password", json!({"case":attrs,"stage":stage})); }
             match streams(&parts) {
